@@ -4,8 +4,48 @@ Obligations: what symbolic execution emits and the discharger decides.
 import z3
 
 
+def skolemize(goal, assumptions):
+    """goal of the shape (forall x. body) [possibly under an implication / conjunction]: replace the bound
+    variable by a fresh constant and instantiate every single-variable universally quantified assumption of the
+    same sort at that constant (one round of manual E-matching).  Returns (assumptions', goal')."""
+    if goal is None or assumptions is None:
+        return assumptions, goal
+    sks = []
+
+    def strip(g):
+        if z3.is_quantifier(g) and g.is_forall():
+            n = g.num_vars()
+            cs = [z3.Const('sk!%s!%d' % (g.var_name(i), len(sks) + i), g.var_sort(i)) for i in range(n)]
+            sks.extend(cs)
+            # de Bruijn: variable 0 is the innermost (last) bound variable
+            return strip(z3.substitute_vars(g.body(), *reversed(cs)))
+        if z3.is_implies(g):
+            return z3.Implies(g.arg(0), strip(g.arg(1)))
+        if z3.is_and(g):
+            return z3.And(*[strip(c) for c in g.children()])
+        return g
+    try:
+        g2 = strip(goal)
+    except Exception:
+        return assumptions, goal
+    if not sks:
+        return assumptions, goal
+    extra = []
+    for a in assumptions:
+        if z3.is_quantifier(a) and a.is_forall() and a.num_vars() == 1:
+            for c in sks:
+                if a.var_sort(0) == c.sort():
+                    try:
+                        extra.append(z3.substitute_vars(a.body(), c))
+                    except Exception:
+                        pass
+    return list(assumptions) + extra, g2
+
+
 class Ob:
     def __init__(self, oid, kind, props, func, desc, assumptions, goal, must='valid', meta=None):
+        if must == 'valid' and assumptions is not None and goal is not None:
+            assumptions, goal = skolemize(goal, assumptions)
         self.id = oid
         self.kind = kind            # POST EXC PRE INV VAR FRAME REL DEF SCAN LEMMA PROTO COVER CANARY
         self.props = list(props)
